@@ -90,6 +90,7 @@ func (c *Channel) Send(msg []byte) error {
 			rsp.Body.Close()
 			return
 		}
+		verifPointS("hch.send.done", "")
 		c.rsp <- response{rsp, err}
 	}()
 	return nil
